@@ -236,9 +236,15 @@ func (b *siteBuilder) page() string {
 	b.extra = nil
 	nl := b.pick("nlinks", 4)
 	for i := 0; i < nl; i++ {
-		if b.pick("linkkind", 4) == 0 {
+		if lk := b.pick("linkkind", 5); lk == 0 {
 			b.n++
 			r.Links = append(r.Links, fmt.Sprintf("http://dc%d.crawl.example.org/l%d", b.pick("dchost", 2), b.n))
+		} else if lk == 4 {
+			// a foreign host whose name merely ends with the text of a --domains-crawl domain (no label boundary in front
+			// of it): not a sub-domain
+			b.n++
+			r.Links = append(r.Links, fmt.Sprintf("http://%s/l%d", []string{"www.notcrawl.example.org", "cdn.my-crawl.example.org", "notcrawl.example.org"}[b.pick("lookalike", 3)], b.n))
+			b.feat["lookalike-domain-link"] = true
 		} else {
 			r.Links = append(r.Links, b.name("l", ""))
 		}
